@@ -473,7 +473,7 @@ def chk_enum_rej_{en}_{pn}(kind, tag, n, c0, c1):
                   bounds="all 2^n values x 8 option combinations x strict/lax")
             mf.ob(f"flag_names_rej_{fn}_{st}", "oi: int, rk: int, n: int, i0: int, i1: int, i2: int",
                   f"return flag_names_reject({fn!r}, {st!r}, oi, rk, n, i0, i1, i2)",
-                  pre=["0 <= oi < 8", "0 <= rk < 7", "0 <= n <= 2", "0 <= i0 < 9 and 0 <= i1 < 9 and 0 <= i2 < 9"], timeout=tmo * 2,
+                  pre=["0 <= oi < 8", "0 <= rk < 7", "0 <= n <= 2", "0 <= i0 < 9 and 0 <= i1 < 9 and 0 <= i2 < 9"], timeout=tmo * 4,
                   family="flag by member names: accepts exactly valid name lists",
                   bounds="candidate: list/tuple/str/dict/None/int/iterator of <= 2 items from member names + near misses + non-str + unhashable; 8 option combinations")
             if not quick:
